@@ -11,7 +11,7 @@ from search.common import drive
 def gen(rng):
     kind = rng.choice(["bloom", "ondisk", "cbf", "expanding", "rotating", "cms", "cmean", "hh", "st", "cuckoo", "ccf", "qf"])
     keys = ["k%d" % rng.randrange(2000) for _ in range(rng.randint(1, 12))]
-    return {"kind": kind, "est": rng.choice([1, 2, 3, 5, 12]), "fpr": rng.choice([0.3, 0.1, 0.05]), "keys": keys, "adds": [rng.choice(keys) for _ in range(rng.randint(0, 20))], "probes": keys + ["absent%d" % i for i in range(3)], "seed": rng.randrange(2**32)}
+    return {"kind": kind, "est": rng.choice([1, 2, 3, 5, 12]), "fpr": rng.choice([0.3, 0.1, 0.05]), "keys": keys, "adds": [rng.choice(keys) for _ in range(rng.randint(0, 30))], "probes": keys + ["absent%d" % i for i in range(3)], "seed": rng.randrange(2**32)}
 
 
 def snapshot(kind, obj):
@@ -25,7 +25,10 @@ def snapshot(kind, obj):
     if kind == "st":
         extra = (tuple(obj.meets_threshold.items()),)
     if kind == "ccf":
-        extra = (obj.unique_elements,)
+        # the table itself, read without going through export() (export is one of the calls under test)
+        return (obj.unique_elements, obj.elements_added, obj.capacity, tuple(tuple((int(b.finger), int(b.count)) for b in bkt) for bkt in obj.buckets))
+    if kind == "cuckoo":
+        return (obj.elements_added, obj.capacity, tuple(tuple(int(f) for f in bkt) for bkt in obj.buckets))
     return (bytes(obj), obj.elements_added) + extra
 
 
@@ -70,8 +73,22 @@ def check(case):
                 return None
             for k in case["adds"]:
                 obj.add(k)
+            # half of the cases observe a structure that was exported and loaded back (reachable state too)
+            if case["seed"] % 2 == 0 and kind not in ("qf", "ondisk"):
+                cls = type(obj)
+                kw = {}
+                if kind == "rotating":
+                    kw = {"max_queue_size": 3}
+                if kind == "hh":
+                    kw = {"num_hitters": 3}
+                if kind == "st":
+                    kw = {"threshold": 2}
+                if kind not in ("hh", "st"):
+                    obj = cls.frombytes(bytes(obj), **kw)
             before = snapshot(kind, obj)
             reads = []
+            if kind != "qf":
+                reads.append(("bytes()", lambda: bytes(obj)))
             for k in case["probes"]:
                 reads.append(("check", lambda k=k: obj.check(k)))
                 reads.append(("in", lambda k=k: k in obj))
@@ -122,6 +139,14 @@ def check(case):
                 for k in case["probes"]:
                     if obj.check(k) != fresh.check(k):
                         return f"after clear() check({k!r}) differs from a fresh structure"
+                # indistinguishable also in what happens next: the same additions on both
+                if kind != "ondisk":
+                    for i, k in enumerate(case["adds"][::-1] + case["keys"]):
+                        n = 1 + (i % 3)
+                        ra = core.call(obj.add, k, n) if kind in ("cbf", "cms", "cmean", "hh", "st") else core.call(obj.add, k)
+                        rb = core.call(fresh.add, k, n) if kind in ("cbf", "cms", "cmean", "hh", "st") else core.call(fresh.add, k)
+                        if ra != rb or snapshot(kind, obj) != snapshot(kind, fresh):
+                            return f"after clear() the structure behaves differently from a fresh one (add #{i} of {k!r})"
                 if kind == "ondisk":
                     fresh.close()
             if kind == "ondisk":
